@@ -1,11 +1,32 @@
 #!/bin/bash
-# Build the framework from files on disk only (offline): full .vo build of the Coq development,
-# harness build against /repo's working tree with hooks enabled.
+# Build the framework from files on disk only (offline): harness against /repo's working tree with
+# hooks enabled, regenerated Coq inputs, full .vo build of the Coq development, hooked cargo-nextest
+# and the puppet workspace for the end-to-end rig.
 set -e
 cd "$(dirname "$0")"
 export CARGO_NET_OFFLINE=true
 mkdir -p .cache evidence replays coq/gen
-( cd coq && coq_makefile -f _CoqProject -o Makefile $(find . -name '*.v' -not -path './gen/*' | sed 's|^\./||' | sort) $(ls gen/Gen*.v 2>/dev/null) >/dev/null && timeout 3000 make -j16 )
-python3 -c "import sys; sys.path.insert(0,'lib'); import vlib; b,e=vlib.build_harness(); print(e); sys.exit(0 if b else 1)"
-if [ -x e2e/build.sh ]; then e2e/build.sh; fi
+python3 - <<'PY'
+import sys
+sys.path.insert(0, 'lib')
+import vlib, units_e2e
+b, e = vlib.build_harness()
+print(e)
+if not b:
+    sys.exit(1)
+ok, msg = units_e2e.regen_table()
+if not ok:
+    print(msg)   # the C12 check reports this as a broken obligation; keep going with the committed table
+PY
+( cd coq && coq_makefile -f _CoqProject -o Makefile $(find . -name '*.v' -not -path './gen/*' | sed 's|^\./||' | sort) $(ls gen/Gen*.v 2>/dev/null) >/dev/null && timeout 3000 make -j16 ) || echo "coq build incomplete (reported per property by the checks)"
+python3 - <<'PY'
+import sys
+sys.path.insert(0, 'lib')
+import e2e
+try:
+    e2e.Rig()
+except Exception as ex:
+    print(ex)
+    sys.exit(1)
+PY
 echo setup done
